@@ -173,11 +173,16 @@ def main(argv=None):
     harness_errors = []
     viol_records = []
 
+    n_seen = [0]
+
     def progress(rec):
+        n_seen[0] += 1
         if "harness_error" in rec:
             harness_errors.append(rec)
         if rec.get("violations"):
             viol_records.append(rec)
+        if n_seen[0] > 8 and not rec.get("violations"):
+            rec.pop("sample", None)                 # long thorough runs: keep memory bounded
 
     phases = {}
     records = run_batch(pid, seeds, a.tier, a.workers, wall_budget=budget, progress=progress)
@@ -310,7 +315,7 @@ def build_evidence(mod, pid, tier, base, records, wall, det, known_hit, reported
     nontrivial = {r["digest"] for r in good if r.get("nontrivial") and r.get("digest")}
     cov.setdefault("evaluations", len(good))
     cov.setdefault("distinct_nontrivial", len(nontrivial))
-    cov.setdefault("samples", [r["sample"] for r in good[:3] if "sample" in r])
+    cov.setdefault("samples", [r["sample"] for r in good if "sample" in r][:3])
     sim_wall = sum(r.get("wall", 0.0) for r in good)
     cov["runs_per_hour_this_machine"] = int(len(good) / wall * 3600) if wall > 0 else 0
     cov["seeds_per_hour_this_machine"] = cov["runs_per_hour_this_machine"]
